@@ -282,6 +282,9 @@ func (vc *VC) addrOfExpr(s *State, e ast.Expr) *Term {
 				return r
 			}
 		}
+		if v, ok := obj.(*types.Var); ok && v.Pkg() != nil && v.Parent() == v.Pkg().Scope() && vc.prog.AddrTakenGlobals[v] {
+			return vc.globalAddr(v)
+		}
 		vc.unsupported(e, "implicit address of unboxed variable "+y.Name)
 	case *ast.StarExpr:
 		return vc.eval(s, y.X)
@@ -978,6 +981,9 @@ func (vc *VC) applySpecNoBody(s *State, call *ast.CallExpr, key string, spec *Fu
 		if spec.Local[e] && (vc.fn == nil || vc.fn.Key != key) {
 			continue
 		}
+		if watchRe.MatchString(e.Src) {
+			continue // talks about the callee's own call records: meaningless to a caller
+		}
 		s.assume(post.evalBool(e))
 	}
 	if call != nil {
@@ -1018,4 +1024,44 @@ func (vc *VC) globalFuncLit(o *types.Var, info *types.Info) *ast.FuncLit {
 	}
 	lit, _ := ast.Unparen(vc.prog.GlobalInit[o]).(*ast.FuncLit)
 	return lit
+}
+
+// initCallRecords: for every callee the contract under verification watches (ncalls / callarg / callret), the record
+// starts as "never called": count 0, arguments and results unconstrained values of the callee's parameter and result
+// types (found from the call sites in the body).
+func (vc *VC) initCallRecords(s *State, body ast.Node, info *types.Info) {
+	if vc.fn == nil || vc.fn.Spec == nil || len(vc.fn.Spec.WatchCalls) == 0 || body == nil {
+		return
+	}
+	ast.Inspect(body, func(n ast.Node) bool {
+		call, ok := n.(*ast.CallExpr)
+		if !ok {
+			return true
+		}
+		name := exprStr(call.Fun)
+		if !vc.fn.Spec.WatchCalls[name] {
+			return true
+		}
+		sig, ok := info.TypeOf(call.Fun).Underlying().(*types.Signature)
+		if !ok {
+			return true
+		}
+		k := "$call." + name
+		if _, done := s.ghost[k+".n"]; done {
+			return true
+		}
+		s.ghost[k+".n"] = IntLit(0)
+		vc.ghostTypes[k+".n"] = types.Typ[types.Int]
+		for i := 0; i < sig.Params().Len(); i++ {
+			t := sig.Params().At(i).Type()
+			s.ghost[fmt.Sprintf("%s.arg%d", k, i)] = Fresh("nocall", sortOf(t))
+			vc.ghostTypes[fmt.Sprintf("%s.arg%d", k, i)] = t
+		}
+		for i := 0; i < sig.Results().Len(); i++ {
+			t := sig.Results().At(i).Type()
+			s.ghost[fmt.Sprintf("%s.ret%d", k, i)] = Fresh("nocall", sortOf(t))
+			vc.ghostTypes[fmt.Sprintf("%s.ret%d", k, i)] = t
+		}
+		return true
+	})
 }
